@@ -69,6 +69,31 @@ fn main() {
                 println!("{src:?} => {r:?}");
             }
         }
+        "fuzz-artifact" => {
+            // turn a raw libFuzzer artifact into the replay description of the case the target decoded from it
+            let target = pos.first().cloned().unwrap_or_default();
+            let data = std::fs::read(pos.get(1).cloned().unwrap_or_default()).unwrap_or_default();
+            let j = match target.as_str() {
+                "c01_compile" => {
+                    let mut s = String::from_utf8_lossy(&data[..data.len().min(4096)]).into_owned();
+                    while s.len() > 4096 {
+                        s.pop();
+                    }
+                    let src = props::c01::cap_nesting(&s);
+                    serde_json::json!({"family": "random-characters", "case": props::c01::Case::Text { family: 0, src }})
+                }
+                _ => {
+                    let choices = verif::chooser::bytes_to_choices(&data);
+                    let mut u = verif::chooser::Chooser::new(&choices);
+                    let pool = verif::gen::untyped::Pool::c02();
+                    let depth = 1 + u.below(7);
+                    let expr = verif::gen::untyped::gen_untyped(&mut u, depth, &pool);
+                    let ctx = props::c02::gen_ctx(&mut u);
+                    serde_json::json!({"family": "untyped-programs", "case": props::c02::Prog { expr, ctx }})
+                }
+            };
+            println!("{j}");
+        }
         "selftest" => {
             engine::install_panic_hook();
             let errs = selftest::run();
